@@ -73,7 +73,7 @@ func init() {
 	register(func() {
 		engine.Register(&engine.Check{
 			ID: "C18", Level: "model_checking",
-			Rule: "streams of k in {0,1,2(,3)} values from a per-format corpus (JSON separated by each whitespace form, with and without trailing whitespace, incl. a trailing number) and every truncation of them x decoder kind {byte slice, io.Reader} x buffer size {1,2,3,7,64} x reader schedule: the size of every Read answer is chosen by the explorer (all compositions for streams <=10 bytes, at most 2 short reads beyond) x io.EOF together with the last bytes or separately; executed on the real decoders; oracle: one reference value (refjson/refcbor/refubj) per successful Next, then io.EOF; a truncated stream yields an error other than io.EOF; a case = (stream, decoder, buffer, read schedule); non-trivial = at least two reads",
+			Rule:        "streams of k in {0,1,2(,3)} values from a per-format corpus (JSON separated by each whitespace form, with and without trailing whitespace, incl. a trailing number) and every truncation of them x decoder kind {byte slice, io.Reader} x buffer size {1,2,3,7,64} x reader schedule: the size of every Read answer is chosen by the explorer (all compositions for streams <=10 bytes, at most 2 short reads beyond) x io.EOF together with the last bytes or separately; executed on the real decoders; oracle: one reference value (refjson/refcbor/refubj) per successful Next, then io.EOF; a truncated stream yields an error other than io.EOF; a case = (stream, decoder, buffer, read schedule); non-trivial = at least two reads",
 			Assumptions: []string{"zero-byte reads (0, nil) are outside the statement and not generated", "reference decoders define the i-th value"},
 			Families:    c18Families,
 			Bounds: func(tier string) map[string]interface{} {
